@@ -236,6 +236,7 @@ func main() {
 		{"demuxer data + demuxer packets", []int{1, 4}, []int{2, 1}},
 		{"full PES headers + descriptor zoo", []int{5, 6}, []int{2, 1}},
 		{"adaptation-field variety (packets + data)", []int{7, 8}, []int{2, 1}},
+		{"split section headers + descriptor zoo", []int{9, 6}, []int{1, 1}},
 	}
 	if tier == "thorough" {
 		scens = []scen{
@@ -245,6 +246,7 @@ func main() {
 			{"3 demuxers", []int{0, 1, 3}, []int{2, 1}},
 			{"full PES headers + descriptor zoo", []int{5, 6}, []int{3, 2}},
 			{"adaptation-field variety (packets + data)", []int{7, 8}, []int{3, 2}},
+			{"split section headers + descriptor zoo", []int{9, 6}, []int{3, 1}},
 		}
 	}
 	outcomes := map[string]bool{}
